@@ -112,6 +112,8 @@ def run_runtime(ctx, build, scratch, tier):
 DEFS = [None] + [{"title": ti, "chan_type": ct, **({"labels": lb} if lb is not None else {})}
                  for (ti, ct) in (("a", "stack"), ("a", "single"), ("b", "stack"))
                  for lb in (None, {"1": "x"}, {"1": "y"}, {"2": "x"}, {"1": "xy"})]     # "x" is a proper prefix of "xy": still a conflict
+# mark values are 64-bit: a label registered for 2^32+1 is not a label for 1 (and does not clash with one)
+DEFS += [{"title": "a", "chan_type": "stack", "labels": {"1": "x", "4294967297": "big"}}, {"title": "a", "chan_type": "stack", "labels": {"4294967297": "big"}}]
 
 
 def conflict(a, b):
@@ -312,7 +314,7 @@ def run(prop, tier):
         run_runtime(ctx, build, scratch, tier)
         run_emulator(ctx, build, scratch, tier)
         ctx.cov["rule"] = ("(1) every program of <= 3/4 operations over 11 definition and 9 event operations of the mark API through the real libovni: abort iff a "
-                           "documented reason applies, else metadata and stream compared with the reference; (2) all 256 pairs of per-thread definitions of one "
+                           "documented reason applies, else metadata and stream compared with the reference; (2) all 324 pairs of per-thread definitions of one "
                            "type through the real ovniemu (refused iff title/channel type/label conflict; labels merged in both .pcf); (3) explicit-state walks of "
                            "push/pop/set (values 0, 1, 2^32, 2^32+1; defined, second and undefined type) on two threads with pause/cool/warm/resume: verdict and rows type 100")
         ctx.cov["distinct_nontrivial"] = ctx.cov["states"]
